@@ -15,7 +15,7 @@ import RepeVerif.Gen.Dispatch
 
 clause → theorem
 * facts read off the current source are the specification's ....... `C03.source_facts`, `C03.error_code_table`
-* notify clear ⇒ exactly one response, with the request's id ...... `C03.one_response`, `C03.response_id`
+* notify clear ⇒ exactly one response, with the request's id ...... `C03.one_response`, `C03.response_id`, `C03.builtin_ok_response`
 * notify set ⇒ none ............................................... `C03.no_response_for_notify`
 * handler invoked exactly once iff dispatched ..................... `C03.handler_once`, `C03.reject_never_invokes`
 * query echo unless the handler chose its own ..................... `C03.query_echo`
@@ -128,6 +128,27 @@ theorem query_echo (m : Message)
   · cases t <;> simp [finalMessage, asyncFrameMsg, stamp_id, Header.patchLengths]
   · cases t <;> simp [finalMessage, asyncFrameMsg, stamp_ec, Header.patchLengths]
   · cases t <;> simp [finalMessage, asyncFrameMsg, stamp_body]
+
+/-- A built-in handler's success response (`response_header_builder` + body) reaches the wire with the
+request's id, the request's query bytes, `ec = 0` and the handler's body, on every transport. -/
+theorem builtin_ok_response (bf : Nat) (body : Bytes)
+    (hr : route Gen.codes req utf8 found = .dispatch) (hn : req.isNotify = false) :
+    ∃ r, (respond Gen.codes t req utf8 found (.ok (builtinResponse req bf body))
+            (.ok (builtinResponse req bf body)) rejMsg).1 = some r ∧
+      r.header.id = req.header.id ∧ r.query = req.query ∧ r.header.ec = 0 ∧ r.body = body ∧
+      r.header.bodyFormat = bf := by
+  obtain ⟨r, h1, hq, hid, hec, hb⟩ := query_echo t req utf8 found rejMsg (builtinResponse req bf body) hr hn
+  refine ⟨r, h1, ?_, ?_, ?_, ?_, ?_⟩
+  · rw [hid]; rfl
+  · rw [hq]; simp [builtinResponse, Builder.build]
+  · rw [hec]; rfl
+  · rw [hb]; rfl
+  · unfold respond at h1
+    rw [hr] at h1
+    simp only [hn] at h1
+    cases h1
+    cases t <;> simp [finalMessage, asyncFrameMsg, stampResponseQuery, responseEchoQuery, builtinResponse,
+      Builder.build, Header.patchLengths] <;> (try split) <;> rfl
 
 /-- The id every built-in response helper puts in: the request's. (`response_id` for handler `ok`
 results is the hypothesis `m.header.id = req.header.id` of `query_echo`'s third conjunct.) -/
